@@ -18,7 +18,13 @@ import (
 
 // One test binary, three roles (VERIF_MODE): super, worker, replay.
 
-const verifRoot = "/verif"
+// verifRoot is where known_findings.json and findings/ live (the check script's directory).
+var verifRoot = func() string {
+	if r := os.Getenv("VERIF_ROOT"); r != "" {
+		return r
+	}
+	return "/verif"
+}()
 
 // workRoot is where replays, evidence and per-run output go (VERIF_WORK lets a
 // scratch run against another repository copy keep its files apart).
